@@ -124,6 +124,18 @@ def run(repo: Repo, rep: Report, tier: str) -> None:
                   ("reads latch_type only for messages" if reads else "never reads op.latch_type") + ": `write(v, set=..., reset=...)` and `write(v, reset=..., set=...)` produce identical rows, so one of the two priorities is wrong whatever the evaluation order",
                   m.loc())
 
+    # the branch has to act on the rows that are emitted: the local handed over as `conditions=` is changed (or chosen) inside it
+    for m in builders:
+        for c2 in calls_in(m.node, "create_and_add_placement"):
+            cv = kwarg(c2, "conditions")
+            if cv is None or not isinstance(cv, ast.Name):
+                continue
+            brs = [n for n in walk_local(m.node) if isinstance(n, ast.If) and "op.latch_type" in norm(n.test)]
+            touches = any(isinstance(x, ast.Name) and x.id == cv.id for b in brs for st in b.body + b.orelse for x in ast.walk(st))
+            if brs:
+                rep.check(touches, "C05-R2", f"{m.short}: the branch on op.latch_type changes the rows it emits", f"`{cv.id}` is built or edited inside the branch" if touches else
+                          f"the branch never touches `{cv.id}`: both priorities still emit the same rows", m.loc(brs[0]))
+
     # ---------------- R3 ---------------------------------------------------------------
     rep.rule("C05-R3", "_invert_comparison's table maps every comparator that lowering can pass (the lowerer's COMPARISON_OPS) to its logical negation over the integers, "
              "keeps the constant, and the caller passes the *reset* operator through it")
